@@ -1,6 +1,7 @@
 """C19 — Concurrent requests do not influence one another, from the very first request."""
 import asyncio
 import itertools
+import threading
 import json
 import os
 
@@ -96,13 +97,34 @@ def serial_wsgi(i, kind):
 # ------------------------------------------------------------------ (a) first-request race
 
 
+_LOCK_TYPES = (type(threading.Lock()), type(threading.RLock()))
+
+
+def _cooperative_locks(router, sched):
+    """Replace every threading lock the router object holds (whatever its attribute is called) by a lock the scheduler
+    understands.  A router without a lock is left as it is: the schedules then decide whether it needs one."""
+    locks = []
+    names = set(getattr(router, '__dict__', {}))
+    for klass in type(router).__mro__:
+        names.update(getattr(klass, '__slots__', ()))
+    for name in sorted(names):
+        try:
+            value = getattr(router, name)
+        except AttributeError:
+            continue
+        if isinstance(value, _LOCK_TYPES):
+            lock = CoopLock(sched)
+            setattr(router, name, lock)
+            locks.append(lock)
+    return locks
+
+
 def run_race(case):
     reqs = case['reqs']
     app = build_wsgi()
     fns = [lambda i=i: wsgi_request(app, i) for i in reqs]
     sched = Scheduler(fns, case['plan'], trace_prefixes=(COMPILED_PY,), trace_filenames=('<string>',))
-    lock = CoopLock(sched)
-    app._router._compile_lock = lock
+    locks = _cooperative_locks(app._router, sched)
     results = sched.run()
     ctx = 'requests=%r plan=%r switches=%r' % ([REQS[i][0] for i in reqs], case['plan'], sched.switch_log[:8])
     if sched.deadlock:
@@ -117,7 +139,7 @@ def run_race(case):
     labels = ['threads:%d' % len(reqs), 'switches:%d' % min(sched.switches, 6)]
     # a switch is inside the compilation window if it happened before the first thread's compile finished
     in_window = any(w != 'end' and w != 'lock' for (_f, _t, _p, w) in sched.switch_log)
-    if lock.contended:
+    if any(lock.contended for lock in locks):
         labels.append('lock_contended')
     if in_window:
         labels.append('preempted_inside_router')
